@@ -490,11 +490,12 @@ def w_exact(F, R):
     R.ob("W-EXACT", "sites", n >= 2, "packages/rooc/src/transformers/bounds.rs", "expected the coefficient-removal sites of AffineForm::merge and ::scale, found %d" % n)
 
 
-def check(F, R):
+def check(F, R, tier="quick"):
     w_exact(F, R)
     p_ivl(F, R)
     t_boundsof(F, R)
     t_ivl_sem(F, R)
+    bounds_sound(F, R, tier)
     t_inverse(F, R)
     w_rules(F, R)
 
@@ -569,3 +570,191 @@ def t_ivl_sem(F, R):
                 break
         R.ob("T-IVL-SEM", label, bad is None, "packages/rooc/src/transformers/bounds.rs", bad or "sound and well formed on every interval class")
     R.count("T-IVL-SEM.cells", n_cells)
+
+
+# ---- BOUNDS-SOUND ---------------------------------------------------------------------------------------
+# The whole analysis (BoundsAnalyzer::analyze: affine forms, the propagation queue, forward and reverse rules, tighten_variable,
+# the infeasibility flag) and apply_to_domain are evaluated from their typed HIR on a family of small models: every pair of
+# constraint templates (affine with positive / negative / fractional coefficients, abs, min, max, nested and scaled forms, each
+# relation) over two variables, under several declared domains.  Soundness is decided on a rational grid of the declared box:
+# every grid point that satisfies both constraints lies inside the derived range of each variable (and inside the domain
+# written back by apply_to_domain, integers included), and the infeasibility flag is only raised when no grid point is
+# feasible.  Tightness is not required.
+
+def bounds_sound(F, R, tier="quick"):
+    import itertools as it
+    from fractions import Fraction as Fr
+    import c10
+    import c12rt
+    from interp import Interp, Var as V, Rope as Rp, ListV as LV, is_unknown
+    fn = "transformers::bounds::BoundsAnalyzer::analyze"
+    ap = "transformers::bounds::BoundsAnalyzer::apply_to_domain"
+    if not R.ob("BOUNDS-SOUND", "anchor", F.fn(fn) is not None and F.fn(ap) is not None, "packages/rooc/src/transformers/bounds.rs", "analyze and apply_to_domain found"):
+        return
+    for p in (fn, ap, "transformers::bounds::BoundsAnalyzer::propagate_affine_constraints", "transformers::bounds::BoundsAnalyzer::tighten_expression", "transformers::bounds::BoundsAnalyzer::tighten_affine_form", "transformers::bounds::BoundsAnalyzer::tighten_variable", "transformers::bounds::AffineForm::from_exp"):
+        R.fn(p)
+    I = Interp(F, max_depth=400)
+    E = c10.EXP
+    VT = "math::math_enums::VariableType"
+    INF = float("inf")
+    var = lambda n: V(E + "::Variable", [Rp([n])])
+    num = lambda c: V(E + "::Number", [float(c)])
+    bop = lambda o, a, b: V(E + "::BinOp", [V("math::operators::BinOp::" + o), a, b])
+    neg = lambda a: V(E + "::UnOp", [V("math::operators::UnOp::Neg"), a])
+    ab = lambda a: V(E + "::Abs", [a])
+    mx = lambda *a: V(E + "::Max", [LV(list(a))])
+    mn = lambda *a: V(E + "::Min", [LV(list(a))])
+    x, y = var("x"), var("y")
+
+    def value(e, env):
+        k = e.path.rsplit("::", 1)[-1]
+        if k == "Number":
+            return Fr(e.args[0])
+        if k == "Variable":
+            return env[e.args[0].text()]
+        if k == "Abs":
+            return abs(value(e.args[0], env))
+        if k in ("Min", "Max"):
+            vs = [value(z, env) for z in e.args[0].items]
+            return min(vs) if k == "Min" else max(vs)
+        if k == "UnOp":
+            return -value(e.args[1], env)
+        if k == "BinOp":
+            o = e.args[0].path.rsplit("::", 1)[-1]
+            a, b = value(e.args[1], env), value(e.args[2], env)
+            return {"Add": a + b, "Sub": a - b, "Mul": a * b}[o] if o != "Div" else a / b
+        raise KeyError(k)
+    exprs = [("x+y", bop("Add", x, y)), ("2x-y", bop("Sub", bop("Mul", num(2), x), y)), ("-0.5x+y", bop("Add", bop("Mul", num(-0.5), x), y)), ("x", x), ("y/-2", bop("Div", y, num(-2))),
+             ("abs(x)", ab(x)), ("abs(x-y)", ab(bop("Sub", x, y))), ("max(x,y)", mx(x, y)), ("min(x,2y)", mn(x, bop("Mul", num(2), y))), ("-(x+3)", neg(bop("Add", x, num(3)))),
+             ("abs(x)+y", bop("Add", ab(x), y)), ("-2*max(x,y)", bop("Mul", num(-2), mx(x, y))), ("3-min(x,y)", bop("Sub", num(3), mn(x, y))), ("max(abs(x),y)", mx(ab(x), y)), ("x-(2-y)", bop("Sub", x, bop("Sub", num(2), y))),
+             ("(x+y)/2", bop("Div", bop("Add", x, y), num(2))), ("-x", neg(x)), ("abs(y)-x", bop("Sub", ab(y), x))]
+    rels = [("LessOrEqual", lambda a, b: a <= b), ("GreaterOrEqual", lambda a, b: a >= b), ("Equal", lambda a, b: a == b)]
+    rhss = [1.0, -2.0, 0.0, 2.5]
+    cons = []
+    for (el, e), (rl, rf), c in it.product(exprs, rels, rhss):
+        if rl == "Equal" and c not in (1.0, 0.0):
+            continue
+        cons.append(("%s %s %s" % (el, {"LessOrEqual": "<=", "GreaterOrEqual": ">=", "Equal": "="}[rl], c), e, rl, rf, c))
+    domains = [("real", ("Real", -4.0, 4.0), ("Real", -4.0, 4.0)), ("half", ("Real", -INF, 3.0), ("NonNegativeReal", 0.0, INF)), ("int", ("IntegerRange", -3, 3), ("Real", -4.0, 4.0)), ("free", ("Real", -INF, INF), ("Real", -INF, INF))]
+    con = lambda e, rl, c: V("parser::model_transformer::model::Constraint", fields={"name": "", "lhs": e, "constraint_type": V("math::math_enums::Comparison::" + rl), "rhs": num(c), "is_logic_assertion": False})
+
+    def grid(d):
+        lo, hi = (d[1], d[2]) if d[0] != "Boolean" else (0, 1)
+        lo2, hi2 = max(lo, -5), min(hi, 5)
+        if d[0] == "IntegerRange":
+            return [Fr(i) for i in range(int(lo2), int(hi2) + 1)]
+        pts = []
+        z = Fr(int(lo2 * 2), 2)
+        while z <= hi2:
+            if z >= lo:
+                pts.append(z)
+            z += Fr(1, 2)
+        pts += [Fr(lo2) + Fr(1, 3)] if Fr(lo2) + Fr(1, 3) <= hi2 else []
+        return pts
+    pairs = list(it.combinations(range(len(cons)), 2))
+    pairs = pairs[::7] if tier == "thorough" else pairs[::160]
+    pairs = [(i, i) for i in range(len(cons))] + pairs
+    bad = {}
+    n_models = 0
+    tol = Fr(1, 10 ** 6)
+    for dl, dx, dy in domains:
+        gx, gy = grid(dx), grid(dy)
+        pts = list(it.product(gx, gy))
+        # truth table of every constraint on the grid of this declared box
+        truth = []
+        for c in cons:
+            truth.append({k_ for k_, (a, b) in enumerate(pts) if c[3](value(c[1], {"x": a, "y": b}), Fr(c[4]))})
+        for i, j in pairs:
+            cs = [cons[i]] if i == j else [cons[i], cons[j]]
+            dom = LV([("x", c12rt.dv(V(VT + "::" + dx[0], list(dx[1:])))), ("y", c12rt.dv(V(VT + "::" + dy[0], list(dy[1:]))))])
+            r = I.call_fn(fn, [dom, LV([con(c[1], c[2], c[4]) for c in cs])])
+            n_models += 1
+            key = "%s | %s" % (dl, " ; ".join(c[0] for c in cs))
+            group = cs[0][0].split(" ")[0] + ("+" + cs[1][0].split(" ")[0] if len(cs) > 1 else "")
+            if is_unknown(r) or not isinstance(r, V) or "variable_bounds" not in r.fields:
+                bad.setdefault(("eval", group), "%s: analysis not evaluable: %r" % (key, r))
+                continue
+            vb = {(k_.text() if isinstance(k_, Rp) else k_): (b_.fields["lower"], b_.fields["upper"]) for k_, b_ in r.fields["variable_bounds"].items}
+            if any(lo != lo or hi != hi for lo, hi in vb.values()):
+                bad.setdefault(("nan", group), "%s: NaN bound %s" % (key, vb))
+                continue
+            r2 = I.call_fn(ap, [r, dom])
+            if is_unknown(r2):
+                bad.setdefault(("eval", group), "%s: apply_to_domain not evaluable: %r" % (key, r2))
+                continue
+            written = {}
+            for k_, d_ in dom.items:
+                t_ = d_.fields["as_type"]
+                written[k_] = (t_.path.rsplit("::", 1)[-1], t_.args)
+            feasible_seen = False
+            for k_ in sorted(truth[i] & truth[j]):
+                a, b = pts[k_]
+                if True:
+                    feasible_seen = True
+                    for nm, v_ in (("x", a), ("y", b)):
+                        lo, hi = vb[nm]
+                        if (lo != -INF and v_ < Fr(lo) - tol) or (hi != INF and v_ > Fr(hi) + tol):
+                            bad.setdefault(("unsound", group), "%s: the feasible point x=%s, y=%s is outside the derived range of %s [%r, %r]" % (key, a, b, nm, lo, hi))
+                        wk, wa = written[nm]
+                        if wk != "Boolean" and len(wa) == 2:
+                            wlo, whi = wa
+                            if (wlo != -INF and v_ < Fr(wlo) - tol) or (whi != INF and v_ > Fr(whi) + tol):
+                                bad.setdefault(("domain", group), "%s: the feasible point x=%s, y=%s is outside the domain written back for %s: %s(%r, %r)" % (key, a, b, nm, wk, wlo, whi))
+            if r.fields.get("detected_infeasible") is True and feasible_seen:
+                bad.setdefault(("flag", group), "%s: flagged infeasible although a grid point is feasible" % key)
+    # inexact arithmetic: propagated ends that land within one rounding error of a declared end (the tolerance branches)
+    inexact = [("x+y>=0.4 | x in [0,0.3], y in [0,0.1]", ("NonNegativeReal", 0.0, 0.3), ("NonNegativeReal", 0.0, 0.1), [(bop("Add", x, y), "GreaterOrEqual", 0.4)]),
+               ("x>=0.1+0.2 | x in [-5,0.3]", ("Real", -5.0, 0.3), ("Real", 0.0, 1.0), [(x, "GreaterOrEqual", 0.1 + 0.2)]),
+               ("1.9x<=1.9 | x in [1,5]", ("Real", 1.0, 5.0), ("Real", 0.0, 1.0), [(bop("Mul", num(1.9), x), "LessOrEqual", 1.9)]),
+               ("1.9x>=9.5 | x in [1,5]", ("Real", 1.0, 5.0), ("Real", 0.0, 1.0), [(bop("Mul", num(1.9), x), "GreaterOrEqual", 1.9 * 5)]),
+               ("3.9x>=42.9 | x int [0,100]", ("IntegerRange", 0, 100), ("Real", 0.0, 1.0), [(bop("Mul", num(3.9), x), "GreaterOrEqual", 42.9)]),
+               ("1.9x<=15.2 | x int [0,100]", ("IntegerRange", 0, 100), ("Real", 0.0, 1.0), [(bop("Mul", num(1.9), x), "LessOrEqual", 15.2)]),
+               ("x+y<=0.3, x>=0.1, y>=0.2", ("NonNegativeReal", 0.0, 1.0), ("NonNegativeReal", 0.0, 1.0), [(bop("Add", x, y), "LessOrEqual", 0.3), (x, "GreaterOrEqual", 0.1), (y, "GreaterOrEqual", 0.2)]),
+               ("0.1x+0.2y>=0.3 | [0,1]^2", ("NonNegativeReal", 0.0, 1.0), ("NonNegativeReal", 0.0, 1.0), [(bop("Add", bop("Mul", num(0.1), x), bop("Mul", num(0.2), y)), "GreaterOrEqual", 0.1 * 1 + 0.2 * 1)])]
+    relf = {"LessOrEqual": lambda a, b: a <= b, "GreaterOrEqual": lambda a, b: a >= b, "Equal": lambda a, b: a == b}
+    for label, dx, dy, cs in inexact:
+        dom = LV([("x", c12rt.dv(V(VT + "::" + dx[0], list(dx[1:])))), ("y", c12rt.dv(V(VT + "::" + dy[0], list(dy[1:]))))])
+        r = I.call_fn(fn, [dom, LV([con(e, rl, c) for e, rl, c in cs])])
+        n_models += 1
+        if is_unknown(r) or not isinstance(r, V) or "variable_bounds" not in r.fields:
+            bad.setdefault(("eval", "inexact:" + label), "%s: analysis not evaluable: %r" % (label, r))
+            continue
+        vb = {(k_.text() if isinstance(k_, Rp) else k_): (b_.fields["lower"], b_.fields["upper"]) for k_, b_ in r.fields["variable_bounds"].items}
+        r2 = I.call_fn(ap, [r, dom])
+        if is_unknown(r2):
+            bad.setdefault(("eval", "inexact:" + label), "%s: apply_to_domain not evaluable: %r" % (label, r2))
+            continue
+        for nm, (lo, hi) in vb.items():
+            if lo != lo or hi != hi or lo > hi:
+                bad.setdefault(("unsound", "inexact:" + label), "%s: derived range of %s is [%r, %r] (crossed or NaN)" % (label, nm, lo, hi))
+        written = {}
+        for k_, d_ in dom.items:
+            t_ = d_.fields["as_type"]
+            written[k_] = (t_.path.rsplit("::", 1)[-1], t_.args)
+            if len(t_.args) == 2 and t_.args[0] > t_.args[1]:
+                bad.setdefault(("domain", "inexact:" + label), "%s: the domain written back for %s is %s(%r, %r): its lower end is above its upper end" % (label, k_, written[k_][0], t_.args[0], t_.args[1]))
+        # the end points of the declared box and a few inner points
+        def pts_of(d):
+            lo, hi = Fr(d[1]), Fr(d[2])
+            ps = {lo, hi, (lo + hi) / 2}
+            if d[0] == "IntegerRange":
+                ps = {Fr(i) for i in range(int(d[1]), min(int(d[2]), 20) + 1)}
+            return sorted(ps)
+        for a, b in it.product(pts_of(dx), pts_of(dy)):
+            env = {"x": a, "y": b}
+            if all(relf[rl](value(e, env), Fr(c)) for e, rl, c in cs):
+                for nm, v_ in (("x", a), ("y", b)):
+                    lo, hi = vb[nm]
+                    if (lo != -INF and v_ < Fr(lo) - tol) or (hi != INF and v_ > Fr(hi) + tol):
+                        bad.setdefault(("unsound", "inexact:" + label), "%s: the feasible point x=%s, y=%s is outside the derived range of %s [%r, %r]" % (label, a, b, nm, lo, hi))
+                    wk, wa = written[nm]
+                    if len(wa) == 2 and ((wa[0] != -INF and v_ < Fr(wa[0]) - tol) or (wa[1] != INF and v_ > Fr(wa[1]) + tol)):
+                        bad.setdefault(("domain", "inexact:" + label), "%s: the feasible point x=%s, y=%s is outside the domain written back for %s: %s(%r, %r)" % (label, a, b, nm, wk, wa[0], wa[1]))
+    R.count("BOUNDS-SOUND.models", n_models)
+    R.count("BOUNDS-SOUND.constraints", len(cons))
+    for stage, text_ in (("eval", "the analysis is evaluable on every model"), ("nan", "no NaN bound"), ("unsound", "every feasible grid point is inside the derived ranges"), ("domain", "every feasible grid point is inside the domains written back"), ("flag", "the infeasibility flag is never raised on a feasible model")):
+        b = {g: v for (s, g), v in bad.items() if s == stage}
+        if not b:
+            R.ob("BOUNDS-SOUND", stage, True, "packages/rooc/src/transformers/bounds.rs", "%s (%d models)" % (text_, n_models))
+        for g, v in sorted(b.items())[:12]:
+            R.ob("BOUNDS-SOUND", "%s:%s" % (stage, g), False, "packages/rooc/src/transformers/bounds.rs", v)
